@@ -183,6 +183,15 @@ FIXED = [
  ('C15', 'textual-continuation-unfolding', '0a7771a',
   "dedent_block removed backslash-newline textually: a comment ending in a backslash swallowed the next statement / def line, strings with an escaped backslash before a newline were altered",
   {'seed': 'C15/0/4/0', 'tabs': True, 'features': ['comment_bs', 'triple_bs_end', 'raw_triple_bs', 'comment_bs_then_str', 'continuation', 'str_bs_nl', 'bytes_indented']}),
+ ('C14', 'enumerate-iterable-keyword-rejected', '6b35fe4',
+  "enumerate(iterable=xs) raised TypeError in the overload (first parameter named s)",
+  {'kind': 'shape', 'bname': 'enumerate', 'label': 'enumerate(iterable=x, start=n)', 'vc': 'list'}),
+ ('C14', 'eval-locals-innermost-frame-only', 'fe9348e',
+  "eval()/locals() inside a functionalised loop/branch body only saw the names that body mentions (NameError / missing keys)",
+  {'kind': 'frame', 'fname': 'f_eval', 'mode': 'to_graph'}),
+ ('C14', 'eval-explicit-globals-gets-frame-locals', 'f22154d',
+  "eval('q', {'q': 5}) returned the caller's local q: frame locals were injected although only globals were given",
+  {'kind': 'frame', 'fname': 'f_eval_explicit', 'mode': 'to_graph'}),
  ('C04', 'nested-conditional-expression-native', '97e2f5a',
   "a conditional expression nested in the test or a branch of another one stayed native (visit_IfExp did not visit children)",
   'C04MATRIX'),
